@@ -391,7 +391,29 @@ def attach_c05():
     Qm.Quantity.__init__ = init
 
 
-ATTACH = {"C04": attach_c04, "C05": attach_c05, "C07": attach_c07, "C08": attach_c08, "C10": attach_c10}
+# ---------------- C09: id trace during the repository's test run ----------------
+def attach_c09():
+    from symplyphysics.core.symbols import id_generator
+    from vf import attach
+    orig = id_generator.next_id
+    last = dict(id_generator._ids)
+    issued = set()
+
+    def w(base=""):
+        v = orig(base)
+        hit("C09_ids_traced")
+        if v != last.get(base, 0) + 1:
+            violation("C09", f"suite:id-trace:not-increasing-by-one:{base or 'none'}", f"next_id({base!r}) returned {v} after {last.get(base, 0)}", None)
+        if (base, v) in issued:
+            violation("C09", f"suite:id-trace:reissued:{base or 'none'}", f"id {base}{v} issued twice", None)
+        issued.add((base, v))
+        last[base] = v
+        return v
+    id_generator.next_id = w
+    attach.rebind(orig, w)
+
+
+ATTACH = {"C09": attach_c09, "C04": attach_c04, "C05": attach_c05, "C07": attach_c07, "C08": attach_c08, "C10": attach_c10}
 
 
 def pytest_configure(config):
